@@ -122,6 +122,16 @@ class Sh:
                     cases.append(("%s.concat(\"!\")" % W, tg, False, "wrapped.concat")); cases.append(("%s.concat(66)" % W, tg, False, "wrapped.concat"))
                     cases.append(("%s.put(0, 66)" % W, tg, False, "wrapped.put")); cases.append(("%s.insert(0, 66)" % W, tg, False, "wrapped.insert")); cases.append(("%s.delete(0)" % W, tg, False, "wrapped.delete"))
                     cases.append(("%s.concat(%s)" % (W, A), tg, False, "wrapped.concat"))
+        # constants of the program text as receivers of the in-place members: the node is evaluated twice, the second evaluation must
+        # equal the first (the constant itself is never the target) and no variable changes
+        for lit in ('"abc"', '""', '"a\\"b"', "null", "12", "true", "1.5", '("x" + "y")', "(null)"):
+            args = ['"!"', "66", "33", '""', "null", "raw(1, 66)", "tab(1, 2)", "true"] + [P(a, pk) for a in names for pk in (0, 1)]
+            for arg in args:
+                cases.append(("%s.concat(%s)" % (lit, arg), set(), True, "const.concat"))
+                cases.append(("%s.insert(0, %s)" % (lit, arg), set(), True, "const.insert"))
+                cases.append(("%s.put(0, %s)" % (lit, arg), set(), True, "const.put"))
+            cases.append(("%s.delete(0)" % lit, set(), True, "const.delete"))
+            cases.append(("%s.concat(%s).concat(%s)" % (lit, '"!"', "66"), set(), True, "const.concat"))
         frac = 0.06 if quick else 0.6
         for a in names:
             for b2 in names:
